@@ -401,6 +401,13 @@ func (l *lab) reload(kind string) (ok bool, target int, err error) {
 				l.path = p
 			}
 		}()
+	case "full-same-ok":
+		// the content at the served path changes and the operator asks for a FULL reload naming that same path
+		target = l.newGen()
+		if e := l.updateInPlace(l.path, target); e != nil {
+			return false, target, e
+		}
+		sig = *dnsserver.NewFullReloadSignal(l.path)
 	case "partial-ok":
 		target = l.newGen()
 		if e := l.updateInPlace(l.path, target); e != nil {
@@ -433,7 +440,7 @@ func (l *lab) reload(kind string) (ok bool, target int, err error) {
 	}
 	call := l.hist.now()
 	var rerr error
-	if l.viaControl != "" && (kind == "full-ok" || kind == "partial-ok" || kind == "full-back-ok") {
+	if l.viaControl != "" && (kind == "full-ok" || kind == "partial-ok" || kind == "full-back-ok" || kind == "full-same-ok") {
 		rerr = l.signalByControlFile(sig)
 	} else {
 		rerr = l.srv.H.Reload(sig)
